@@ -56,11 +56,6 @@ func (x *Run) allocObj(st *State, ty types.Type, zeroInit bool) string {
 	return ref
 }
 
-func (x *Run) subObjRef(ref string, ty types.Type, field int) string {
-	st, _ := structOf(ty)
-	f := x.d.fun("fa."+shortTypeName(types.Unalias(ty))+"."+st.Field(field).Name(), []Sort{SInt}, SInt)
-	return app(f, ref)
-}
 
 func (x *Run) fieldArr(ty types.Type, field int) string {
 	st, _ := structOf(ty)
@@ -96,13 +91,16 @@ func (x *Run) loadStruct(st *State, ref string, ty types.Type) Val {
 func (x *Run) loadField(st *State, ref string, ty types.Type, i int) Val {
 	stt, _ := structOf(ty)
 	ft := stt.Field(i).Type()
-	if isStruct(ft) {
-		return x.loadStruct(st, x.subObjRef(ref, ty, i), ft)
-	}
 	if x.d.sortOf(ft) == SUnit {
 		return Val{T: "unit", S: SUnit, Ty: ft}
 	}
 	name := x.fieldArr(ty, i)
+	if m := st.lit[name]; m != nil && isNegLit(ref) {
+		if t, ok := m[ref]; ok {
+			t.Ty = ft
+			return t
+		}
+	}
 	v := Val{T: sel(x.arr(st, name), ref), S: x.d.sortOf(ft), Ty: ft}
 	x.assumeType(st, v)
 	if ct, ok := types.Unalias(ft).Underlying().(*types.Chan); ok && x.closable != nil && !x.closable[typeKey(ct.Elem())] && !x.closable["field:"+name] {
@@ -125,16 +123,24 @@ func (x *Run) storeStruct(st *State, ref string, ty types.Type, v Val) {
 func (x *Run) storeField(st *State, ref string, ty types.Type, i int, v Val) {
 	stt, _ := structOf(ty)
 	ft := stt.Field(i).Type()
-	if isStruct(ft) {
-		x.storeStruct(st, x.subObjRef(ref, ty, i), ft, v)
-		return
-	}
 	if x.d.sortOf(ft) == SUnit {
 		return
 	}
 	name := x.fieldArr(ty, i)
 	x.setArr(st, name, store(x.arr(st, name), ref, v.T))
+	if isNegLit(ref) {
+		if st.lit[name] == nil {
+			st.lit[name] = map[string]Val{}
+		}
+		st.lit[name][ref] = Val{T: v.T, S: v.S, Ty: v.Ty, Fields: v.Fields}
+	} else if len(st.lit[name]) > 0 {
+		// a store through a symbolic reference cannot hit an object allocated on
+		// this path only if that reference is known non-negative; be conservative
+		delete(st.lit, name)
+	}
 }
+
+func isNegLit(t string) bool { return strings.HasPrefix(t, "(- ") && !strings.Contains(t[3:], "(") }
 
 // fieldOf extracts field i of a by-value struct Val.
 func (x *Run) fieldOf(v Val, i int) Val {
@@ -213,6 +219,11 @@ func (x *Run) globalVal(st *State, g *ssa.Global) Val {
 	}
 	elem := g.Type().(*types.Pointer).Elem()
 	var v Val
+	if g.Name() == "init$guard" {
+		v = Val{T: "false", S: SBool, Ty: elem}
+		st.globals[g] = v
+		return v
+	}
 	if x.d.sortOf(elem) == SIface && types.Identical(elem, types.Universe.Lookup("error").Type()) {
 		// package-level error variables: distinct non-nil values
 		tag := x.d.tag(g.Type())
@@ -249,9 +260,12 @@ func (x *Run) load(st *State, a *Addr, ty types.Type) Val {
 	case AObj:
 		v = x.loadStruct(st, a.Ref, a.Ty)
 	case AField:
-		v = x.loadField(st, a.Ref, a.Ty, a.Field)
+		v = x.selPath(x.loadField(st, a.Ref, a.Ty, a.Field), a.Sel)
 		if isRefType(v.Ty) || x.d.slices[v.S] != "" {
 			v.Guard = a.Guard
+			if len(a.Sel) == 0 {
+				v.Origin = fieldArrayName(a.Ty, a.Field)
+			}
 		}
 	case ACell:
 		c, ok := st.cells[a.Cell]
@@ -299,7 +313,12 @@ func (x *Run) storeAddr(st *State, a *Addr, v Val, site ssa.Instruction) {
 	case AObj:
 		x.storeStruct(st, a.Ref, a.Ty, v)
 	case AField:
-		x.storeField(st, a.Ref, a.Ty, a.Field, v)
+		if len(a.Sel) == 0 {
+			x.storeField(st, a.Ref, a.Ty, a.Field, v)
+		} else {
+			cur := x.loadField(st, a.Ref, a.Ty, a.Field)
+			x.storeField(st, a.Ref, a.Ty, a.Field, x.updPath(cur, a.Sel, v))
+		}
 	case ACell:
 		if len(a.Sel) == 0 {
 			st.cells[a.Cell] = v
@@ -352,7 +371,11 @@ func (x *Run) ptrTerm(a *Addr) string {
 		return a.Ref
 	case AField:
 		st, _ := structOf(a.Ty)
-		f := x.d.fun("fp."+shortTypeName(types.Unalias(a.Ty))+"."+st.Field(a.Field).Name(), []Sort{SInt}, SInt)
+		name := "fp." + shortTypeName(types.Unalias(a.Ty)) + "." + st.Field(a.Field).Name()
+		for _, s := range a.Sel {
+			name += fmt.Sprintf(".%d", s)
+		}
+		f := x.d.fun(name, []Sort{SInt}, SInt)
 		return app(f, a.Ref)
 	case ACell, AArrCell:
 		return intLit(int64(-1000000 - a.Cell.id))
